@@ -155,7 +155,7 @@ def shard(tier, seed, n):
 
 def run(tier, seed):
     t0 = time.time()
-    total = 2000 if tier == 'quick' else 60000
+    total = 4000 if tier == 'quick' else 60000
     nsh = common.NPROC
     jobs = [dict(tier=tier, seed=s, n=total // nsh) for s in common.shard_seeds(seed, nsh)]
     stats = common.run_shards(__name__, 'shard', jobs)
